@@ -90,7 +90,7 @@ func c02run(line string) (string, []string) {
 			switch {
 			case serr != nil && res != "err":
 				viol = append(viol, "input with a wrong magic number or version > 3 was not rejected: "+res)
-			case serr == nil && res != "ok "+hdrStr(normBool(sh)):
+			case serr == nil && raw[7] == 3 && res != "ok "+hdrStr(normBool(sh)):
 				viol = append(viol, "a v3 header is decoded differently from the specification: got "+res+" want ok "+hdrStr(normBool(sh)))
 			case serr == nil && sh.Version == 3 && sh.Clustered <= 1 && len(raw) == 127:
 				h, _ := pmtiles.DeserializeHeader(raw)
@@ -123,6 +123,12 @@ func c02(r *rng, tier string, o *out) {
 		o.count(tag)
 		for _, v := range viol {
 			o.violation(idx, v)
+		}
+		if f := strings.Fields(line); f[0] == "hdr_deser" {
+			raw := unhx(f[1])
+			if len(raw) != 127 || (string(raw[:7]) == "PMTiles" && raw[7] < 3) {
+				o.outside(idx, "not a 127-byte string, or a header of spec version 0..2: the property speaks of v3 headers and of rejecting wrong magic / version above 3")
+			}
 		}
 	}
 	u64 := func() uint64 {
